@@ -102,32 +102,37 @@ Section AnyNum.
   Proof. unfold loop_set_normal. destruct (verts L) as [|a [|b [|c l]]] eqn:E; try discriminate. intros H; inversion H; subst. cbn. exact E. Qed.
   Lemma removelast_length {A} (l : list A) : length (removelast l) = length l - 1.
   Proof. induction l as [|x [|y l] IH]; cbn [removelast length] in *; try reflexivity. rewrite IH. cbn. lia. Qed.
+  Lemma push_keep_le (vs : list V) (p : V) (fuel : nat) : forall keep k, push_keep vs p keep fuel = Ok k -> k <= keep.
+  Proof.
+    induction fuel as [|f IH]; intros keep k; cbn [push_keep]; [intros H; inversion H; lia|].
+    destruct (Nat.leb 2 keep); [|intros H; inversion H; lia].
+    destruct (is_collinear _ _ p) as [[|]| |]; cbn [rbind]; try discriminate; [|intros H; inversion H; lia].
+    intros H. apply IH in H. lia.
+  Qed.
+  (** (since the fix of push/close a push may shorten the list by any number of vertices: the popped spike, or every
+      trailing vertex that the new point makes redundant) *)
   Lemma push_cases (L L' : Loop K) (p : V) : loop_push L p = Ok L' ->
-    verts L' = verts L ++ [p] \/ (verts L' = replace_last (verts L) p /\ 2 <= llen L) \/
+    (exists keep, keep <= llen L /\ verts L' = firstn keep (verts L) ++ [p]) \/
     (verts L' = removelast (verts L) /\ 2 <= llen L).
   Proof.
-    unfold loop_push, loop_push_gen, loop_push_gen2. cbn [negb andb]. destruct (valid_to_add L p); cbn [rbind]; try discriminate.
+    unfold loop_push. destruct (valid_to_add L p); cbn [rbind]; try discriminate.
+    assert (G : forall vs, (if Nat.eqb (length vs) 3 then loop_set_normal (set_verts L vs)
+                 else if Nat.ltb (length vs) 3 then Ok (set_normal_field (set_verts L vs) vzero) else Ok (set_verts L vs)) = Ok L' -> verts L' = vs).
+    { intros vs. destruct (Nat.eqb _ 3); [intros H; apply set_normal_verts in H; exact H|]. destruct (Nat.ltb _ 3); intros H; inversion H; reflexivity. }
     destruct (Nat.leb 2 (llen L)) eqn:E2.
     - apply Nat.leb_le in E2. destruct (vcompare _ p).
-      { cbn [rbind]. match goal with |- context [if ?b then loop_set_normal ?x else _] => destruct b end; intros H.
-        + apply set_normal_verts in H. cbn [set_verts verts] in H. right; right; auto.
-        + inversion H; subst. cbn [set_verts verts]. right; right; auto. }
-      destruct (is_collinear _ _ p) as [col| |]; cbn [rbind]; try discriminate.
-      match goal with |- context [if ?b then loop_set_normal ?x else _] => destruct b end; intros H.
-      + apply set_normal_verts in H. cbn [set_verts verts] in H. destruct col; [right; left | left]; auto.
-      + inversion H; subst. cbn [set_verts verts]. destruct col; [right; left | left]; auto.
-    - cbn [rbind]. match goal with |- context [if ?b then loop_set_normal ?x else _] => destruct b end; intros H.
-      + apply set_normal_verts in H. left. exact H.
-      + inversion H; subst. left. reflexivity.
+      { cbn [rbind]. intros H. apply G in H. right. auto. }
+      destruct (push_keep _ p _ _) as [keep| |] eqn:Ek; cbn [rbind]; try discriminate.
+      intros H. apply G in H. left. exists keep. split; [exact (push_keep_le _ _ _ _ _ Ek) | exact H].
+    - cbn [rbind]. intros H. apply G in H. left. exists (llen L). split; [lia|]. unfold llen. rewrite firstn_all. exact H.
   Qed.
-  (** (since fix df28df6 a push may also SHORTEN the list by one: the popped spike) *)
   Lemma push_len (L L' : Loop K) (p : V) : loop_push L p = Ok L' ->
-    llen L' <= S (llen L) /\ llen L - 1 <= llen L' /\ (llen L' = S (llen L) -> verts L' = verts L ++ [p]).
+    llen L' <= S (llen L) /\ True /\ (llen L' = S (llen L) -> verts L' = verts L ++ [p]).
   Proof.
-    intros H. destruct (push_cases _ _ _ H) as [E|[[E H2]|[E H2]]]; unfold llen in *; rewrite E.
-    - rewrite app_length. cbn [length]. split; [lia|]. split; [lia|]. reflexivity.
-    - rewrite replace_last_length by (intros C; rewrite C in H2; cbn in H2; lia). split; [lia|]. split; [lia|]. intros C; lia.
-    - rewrite removelast_length. split; [lia|]. split; [lia|]. intros C; lia.
+    intros H. destruct (push_cases _ _ _ H) as [(keep & Hk & E)|[E H2]]; unfold llen in *; rewrite E.
+    - rewrite app_length, firstn_length. cbn [length]. split; [lia|]. split; [exact I|]. intros C.
+      assert (keep = length (verts L)) by lia. subst keep. rewrite firstn_all. reflexivity.
+    - rewrite removelast_length. split; [lia|]. split; [exact I|]. intros C; lia.
   Qed.
 
   Lemma unwrap_ok {A} s (r : res A) (a : A) : unwrap s r = Ok a -> r = Ok a.
